@@ -379,6 +379,11 @@ func (ss *SortedSet) searchReverse(nodes []*SortedSetNode, excludeStart, exclude
 		}
 	}
 
+	// no member is at or below end: x is still the header sentinel, which is not a member
+	if x == ss.header {
+		return nodes
+	}
+
 	for x != nil && limit > 0 {
 		if excludeStart {
 			if x.score <= start {
